@@ -18,6 +18,8 @@ def literals_reaching(f, op, depth=0, seen=None):
     if s is not None:
         return {s}
     k = op_const(op)
+    if k is not None and "named" in k:
+        return f.crate.const_literals(k["named"])
     if k is not None and "promoted" in k:
         pf = f.crate.fns.get("%s::promoted[%d]" % (k["of"], k["promoted"]))
         out = set()
@@ -106,25 +108,53 @@ def r8a_diagnostic_codes(ctx):
                 gates[next(iter(lits))] = (bb, sw[2])  # false edge = not disabled
             else:
                 r.violate("R8a|gate-shape|%s" % sorted(lits), "gate call at %s does not test one literal code" % crate.span_str(c["span"]))
-    # Diagnostic aggregates
+    # Diagnostic aggregates, in the publisher or in closures nested in it (`.extend(items.into_iter().map(|x| Diagnostic {..}))`):
+    # a closure's sites count at the block of the publisher where the closure is built
+    def root_block(g, bb):
+        hops = 0
+        while g.id != f.id and hops < 6:
+            site = crate.closure_sites().get(g.id)
+            if site is None:
+                return None
+            g, bb = site[0], site[1]
+            hops += 1
+        return bb if g.id == f.id else None
+    nested = [f] + [g for g in crate.real_fns() if g.id != f.id and g.id.startswith(f.id + "::")]
     codes = defaultdict(list)
-    for bb, si, pl, rv, sp in f.assigns():
-        if rv[0] == "agg" and rv[1][0] == "adt" and rv[1][1].endswith("::Diagnostic") and "code" in rv[1][3]:
-            lits = literals_reaching(f, rv[2][rv[1][3].index("code")])
-            for l in lits:
-                codes[l].append(bb)
-            if not lits:
-                r.violate("R8a|diagnostic-without-code", "a Diagnostic is constructed at %s without a literal code" % crate.span_str(sp))
+    for g in nested:
+        for bb, si, pl, rv, sp in g.assigns():
+            if rv[0] == "agg" and rv[1][0] == "adt" and rv[1][1].endswith("::Diagnostic") and "code" in rv[1][3]:
+                lits = literals_reaching(g, rv[2][rv[1][3].index("code")])
+                rb = root_block(g, bb)
+                for l in lits:
+                    codes[l].append(rb)
+                if not lits:
+                    r.violate("R8a|diagnostic-without-code", "a Diagnostic is constructed at %s without a literal code" % crate.span_str(sp))
     # accepted by the configuration loader
-    valid = set()
+    # the configuration loader: literal tables (array literals or const items) in the config module that contain at least one
+    # of the gated / constructed codes are the tables of accepted codes
+    tables = []
     for g in crate.fns.values():
-        if re.search(r"config::.*Config::from_raw", g.id) or g.id.endswith("Config::from_raw") or "Config::from_raw::promoted" in g.id:
-            for bb, si, pl, rv, sp in g.assigns():
-                if rv[0] == "agg" and rv[1][0] == "array":
-                    for o in rv[2]:
-                        for s in literals_reaching(g, o):
-                            if "-" in s:
-                                valid.add(s)
+        if "config::" not in g.id:
+            continue
+        for bb, si, pl, rv, sp in g.assigns():
+            if rv[0] == "agg" and rv[1][0] == "array":
+                t = set()
+                for o in rv[2]:
+                    t |= literals_reaching(g, o)
+                if t:
+                    tables.append(t)
+            for o in ([rv[1]] if rv[0] == "use" else []):
+                k = op_const(o) if isinstance(o, list) else None
+                if k and "named" in k:
+                    t = crate.const_literals(k["named"])
+                    if t:
+                        tables.append(t)
+    known_codes = set(gates) | set(codes)
+    valid = set()
+    for t in tables:
+        if t & known_codes:
+            valid |= t
     r.counts["gates"] = ",".join(sorted(gates))
     r.counts["codes"] = ",".join(sorted(codes))
     r.counts["valid"] = ",".join(sorted(valid))
@@ -139,7 +169,7 @@ def r8a_diagnostic_codes(ctx):
         g = gates.get(lit)
         for bb in bbs:
             key = "R8a|ungated|%s" % lit
-            if g is not None and g[1] in dom.get(bb, set()):
+            if g is not None and bb is not None and g[1] in dom.get(bb, set()):
                 r.ok()
             else:
                 r.violate(key, "Diagnostic with code `%s` is constructed on a path that does not pass the not-disabled edge of its gate" % lit)
@@ -282,10 +312,14 @@ def r8b_scope_order(ctx):
             if lit and sw:
                 var = _variant_built(g, sw[1])
                 parse[lit] = var
+    via_as_str = not parse and any((c.get("res") or "").endswith("FixtureScope::as_str") for h in [g] + [x for x in crate.real_fns() if x.root == g.id]
+                                   for _b, c in h.calls())
     for v in adt["variants"]:
         key = "R8b|parse|%s" % v["name"]
         if parse.get(v["name"].lower()) == v["name"]:
             r.ok()
+        elif via_as_str:
+            r.ok(sample={"parse": "defined through as_str (inverse by construction)"} if len(r.samples) < 6 else None)
         else:
             r.violate(key, "FixtureScope::parse(%r) builds %r" % (v["name"].lower(), parse.get(v["name"].lower())))
     # ScopeMismatch construction guarded by fixture.scope > dependency.scope
@@ -379,13 +413,24 @@ def _scope_owner(f, op, depth=0):
 
 
 # ------------------------------------------------------------------------------------------ CLI
+def _unused_cmd(ctx):
+    """the `fixtures unused` command, found by role (calls get_unused_fixtures and process::exit), as inlined view so that
+    output helpers extracted from it are seen"""
+    cands = [f for f in ctx.bin.real_fns() if f.kind in ("fn", "method")
+             and any((c.get("res") or "").endswith("::get_unused_fixtures") for _b, c in f.calls())
+             and any((c.get("res") or "") == "std::process::exit" for _b, c in f.calls())]
+    if len(cands) != 1:
+        return None
+    return ctx.inl(cands[0], depth=2, max_blocks=300, pred=lambda g: g.crate.name == cands[0].crate.name and "FixtureDatabase" not in g.id, tag="cli")
+
+
 def r11b_exit_status(ctx):
     r = Result("R11b", "in the `fixtures unused` command exit(0) is dominated by the true edge and exit(1) by the false edge of "
                        "is_empty() on the vector returned by get_unused_fixtures, and both output formats iterate that vector")
     crate = ctx.bin
-    f = crate.fn("handle_fixtures_unused")
+    f = _unused_cmd(ctx)
     if f is None:
-        r.anchor_missing("handle_fixtures_unused", "not found")
+        r.anchor_missing("unused-fixtures command", "no function that calls get_unused_fixtures and std::process::exit")
         return r
     src = [bb for bb, c in f.calls() if (c.get("res") or "").endswith("::get_unused_fixtures")]
     if len(src) != 1:
@@ -396,8 +441,7 @@ def r11b_exit_status(ctx):
     exits = []
     for bb, c in f.calls():
         if (c.get("res") or "") == "std::process::exit" and src[0] in dom.get(bb, set()):
-            code = op_const(c["args"][0])
-            exits.append((bb, code.get("v") if code else None))
+            exits.append((bb, _const_value(f, c["args"][0])))
     empties = [(bb, _switch_after_call(f, bb)) for bb, c in f.calls()
                if (c.get("res") or "").endswith("::is_empty") and _root(f, c["args"][0]) == v]
     empties = [(bb, sw) for bb, sw in empties if sw]
@@ -446,13 +490,29 @@ def r11b_exit_status(ctx):
     return r
 
 
+def _const_value(f, op, depth=0):
+    k = op_const(op)
+    if k is not None:
+        return k.get("v")
+    l = op_local(op)
+    if l is None or depth > 6:
+        return None
+    vals = set()
+    for d in f.whole_defs(l):
+        if d[0] == "assign" and d[3][0] == "use":
+            vals.add(_const_value(f, d[3][1], depth + 1))
+        else:
+            vals.add(None)
+    return next(iter(vals)) if len(vals) == 1 else None
+
+
 def r11d_json_output(ctx):
     r = Result("R11d", "under the json format branch of `fixtures unused` every printed value is a string literal that parses as "
                        "JSON or the result of serde_json::to_string*/json! serialisation")
     crate = ctx.bin
-    f = crate.fn("handle_fixtures_unused")
+    f = _unused_cmd(ctx)
     if f is None:
-        r.anchor_missing("handle_fixtures_unused", "not found")
+        r.anchor_missing("unused-fixtures command", "no function that calls get_unused_fixtures and std::process::exit")
         return r
     # find the format test: comparison with literal "json"
     jbs = []
@@ -571,10 +631,18 @@ def r11c_one_entry_per_name(ctx):
     r = Result("R11c", "in the function that builds the per-file fixture view every push into the result is dominated by a negative "
                        "`seen.contains(name)` test and followed by `seen.insert(name)` (every name appears once)")
     crate = ctx.bin
-    cands = [f for f in crate.real_fns() if f.kind == "method" and f.ret == "std::vec::Vec<fixtures::types::FixtureDefinition>"
-             and any((c.get("res") or "").startswith("std::collections::HashSet::<T, S") and (c.get("res") or "").endswith("::contains") for _b, c in f.calls())]
-    if len(cands) != 1:
-        r.anchor_missing("per-file view builder", "found %d candidates" % len(cands))
+    def has_seen_test(g):
+        return any((c.get("res") or "").startswith("std::collections::HashSet::<T, S") and (c.get("res") or "").endswith("::contains") for _b, c in g.calls())
+    cands = []
+    for f0 in crate.real_fns():
+        if f0.kind == "method" and f0.ret == "std::vec::Vec<fixtures::types::FixtureDefinition>":
+            v = f0 if has_seen_test(f0) else ctx.inl(f0, depth=2, max_blocks=250, tag="view")
+            if has_seen_test(v) and any((c.get("res") or "") == "std::vec::Vec::<T, A>::push" and "FixtureDefinition" in " ".join(c.get("targs", [])) for _b, c in v.calls()):
+                cands.append(v)
+    # the cached wrapper inlines the builder too: keep the innermost (fewest blocks)
+    cands.sort(key=lambda g: len(g.blocks))
+    if not cands:
+        r.anchor_missing("per-file view builder", "found 0 candidates")
         return r
     f = cands[0]
     dom = f.dominators()
